@@ -5,7 +5,8 @@ usage: rust2coq.py --repo <lasso checkout> --out <dir> [--only keys|arena|lockfr
 
   keys      src/keys.rs                                   -> <out>/KeysGen.v      (lower_keys.py)
   arena     src/arenas/bucket.rs, single_threaded.rs      -> <out>/ArenaGen.v     (lower_arena.py)
-  lockfree  src/arenas/atomic_bucket.rs, lockfree.rs      -> <out>/LockfreeGen.v  (lower_lockfree.py)
+  lockfree  src/arenas/lockfree.rs                        -> <out>/LockfreeGen.v       (lower_lockfree.py)
+            src/arenas/atomic_bucket.rs                   -> <out>/AtomicBucketGen.v   (lower_atomic_bucket.py)
 
 Whenever the source leaves the subset the translator understands it prints
     LOST: <file>:<line>: <what>
@@ -34,8 +35,9 @@ def do_arena(repo, out):
 
 
 def do_lockfree(repo, out):
-    import lower_lockfree
+    import lower_lockfree, lower_atomic_bucket
     lower_lockfree.run(repo, out)
+    lower_atomic_bucket.run(repo, out)
 
 
 PARTS = {"keys": (do_keys, "src/keys.rs"), "arena": (do_arena, "src/arenas"), "lockfree": (do_lockfree, "src/arenas")}
